@@ -16,6 +16,7 @@ import (
 	"github.com/trustbloc/sidetree-core-go/pkg/batch"
 	"github.com/trustbloc/sidetree-core-go/pkg/batch/cutter"
 	"github.com/trustbloc/sidetree-core-go/pkg/batch/opqueue"
+	"github.com/trustbloc/sidetree-core-go/pkg/canonicalizer"
 	"github.com/trustbloc/sidetree-core-go/pkg/versions/1_0/operationparser"
 	"github.com/trustbloc/sidetree-core-go/pkg/versions/1_0/txnprovider"
 
@@ -446,6 +447,14 @@ func (w *wWorld) buildOps(nDIDs, nOps, nClients int) {
 				if mark%3 == 0 {
 					pds = append(pds, workload.PatchDesc{Kind: workload.AddAKA, IDs: []string{"https://a.example/\u00fc?x=1&y=<2>", "HTTPS://A.example/Case#"}},
 						workload.PatchDesc{Kind: workload.RemoveKey, IDs: []string{"k9"}})
+				}
+
+				// now and then a delta as large as intake admits that consists of characters some JSON writers spell with six
+				// bytes each (the batch files must still be within what count x MaxDeltaSize implies)
+				if T.Draw(8, "op.heavy-delta") == 0 {
+					max := int(w.proto.CurrentVersion().P.MaxDeltaSize)
+					pds = []workload.PatchDesc{{Kind: workload.AddNote, Mark: strings.Repeat("<&>", (max-260)/3)}}
+					w.k.Count("probe:delta-near-maximum-size-full-of-html-characters")
 				}
 
 				spec.Patches, _ = workload.ToPatches(pds)
@@ -1003,6 +1012,28 @@ func (w *wWorld) readBack(t *txn.SidetreeTxn, refs []*operation.Reference, want 
 		return
 	}
 
+	// ... and by a node whose chunk-file limit is what intake's own arithmetic requires: n deltas of at most MaxDeltaSize
+	// canonical bytes each (the size intake measures) need no more than n*(MaxDeltaSize+1)+32 bytes, compressed or not;
+	// the decompression factor stays what the protocol version says
+	reqs := make([][]byte, len(want))
+	for i, op := range want {
+		reqs[i] = op.Req
+	}
+
+	for _, v := range w.versions {
+		if v.P.GenesisTime == t.ProtocolVersion {
+			if n, err := arithReadBack(w.cas, v.P, reqs, t); err != nil {
+				w.fail("C13", "readback/arithmetic-limits", fmt.Sprintf("a batch of %d operations, each with a delta within MaxDeltaSize, does not read back under a chunk-file limit of count x (MaxDeltaSize+1)+32 bytes: %v", len(want), err))
+
+				return
+			} else if n >= 0 && n != len(want) {
+				w.fail("C13", "readback/arithmetic-limits", fmt.Sprintf("a batch of %d operations read back as %d operations under a chunk-file limit of count x (MaxDeltaSize+1)+32 bytes", len(want), n))
+
+				return
+			}
+		}
+	}
+
 	// the references handed to the anchor writer name the same suffixes
 	if len(refs) != len(want) {
 		w.fail("C13", "readback/references", fmt.Sprintf("%d operation references for %d included operations", len(refs), len(want)))
@@ -1047,6 +1078,38 @@ func tightReadBack(cas *simenv.CAS, files [][]byte, t *txn.SidetreeTxn) (int, er
 	got, err := txnprovider.NewOperationProvider(p, operationparser.New(p), cas, comp).GetTxnOperations(t)
 	if err != nil {
 		return 0, fmt.Errorf("limits %d bytes x factor %d: %w", limit, factor, err)
+	}
+
+	return len(got), nil
+}
+
+// arithReadBack reads the transaction through a fresh provider with the version's own parameters except that the
+// chunk-file limit is derived from the number of operations and MaxDeltaSize (other files: generous). Returns -1 when
+// some delta of the batch is larger than MaxDeltaSize in canonical form (the premise does not hold).
+func arithReadBack(cas *simenv.CAS, p protocol.Protocol, reqs [][]byte, t *txn.SidetreeTxn) (int, error) {
+	for _, r := range reqs {
+		var m struct {
+			Delta map[string]interface{} `json:"delta"`
+		}
+
+		if json.Unmarshal(r, &m) != nil {
+			return -1, nil
+		}
+
+		if m.Delta != nil {
+			if b, err := canonicalizer.MarshalCanonical(m.Delta); err != nil || uint(len(b)) > p.MaxDeltaSize {
+				return -1, nil
+			}
+		}
+	}
+
+	p.MaxOperationCount = 1 << 20
+	p.MaxChunkFileSize = uint(len(reqs))*(p.MaxDeltaSize+1) + 32
+	p.MaxProvisionalIndexFileSize, p.MaxCoreIndexFileSize, p.MaxProofFileSize = 1<<26, 1<<26, 1<<26
+
+	got, err := txnprovider.NewOperationProvider(p, operationparser.New(p), cas, simenv.NewCompressionProxy(nil)).GetTxnOperations(t)
+	if err != nil {
+		return 0, fmt.Errorf("chunk-file limit %d bytes x factor %d: %w", p.MaxChunkFileSize, p.MaxMemoryDecompressionFactor, err)
 	}
 
 	return len(got), nil
